@@ -478,6 +478,10 @@ func (cw *concWorld) judge(mode string, sig map[string]string, line string) {
 	}
 }
 
+// linDeadlocks: calls that never came back in this part; after three the part stops (every further schedule would wait
+// for its timeout again and leak more goroutines).
+var linDeadlocks atomic.Int64
+
 // wait collects n completions; a call that does not come back within the (generous) bound is a deadlock finding.
 func waitCalls(r *hx.Run, done chan string, n int, mode string, sig map[string]string) bool {
 	for i := 0; i < n; i++ {
@@ -489,6 +493,7 @@ func waitCalls(r *hx.Run, done chan string, n int, mode string, sig map[string]s
 				m[k] = v
 			}
 			r.Fail("thread-safe-list-linearizable", mode+": a call was still blocked 20s after the parked reader had been released", m)
+			linDeadlocks.Add(1)
 
 			return false
 		}
@@ -795,8 +800,12 @@ func bigPushPolling(r *hx.Run, round int) {
 		if p != "" {
 			bad("panic", "the push panicked: "+p)
 		}
-	case <-time.After(60 * time.Second):
-		bad("deadlock", "the push did not return within 60s")
+	case <-time.After(30 * time.Second):
+		bad("deadlock", "the push did not return within 30s")
+		linDeadlocks.Add(1)
+		stop.Store(true)
+
+		return
 	}
 	stop.Store(true)
 	fin := make(chan struct{})
@@ -829,6 +838,9 @@ func concurrentHistories(r *hx.Run) {
 			for _, src := range []string{"ts", "lf", "self"} {
 				for _, reader := range []string{"vals", "rvals", "len"} {
 					for wi, wr := range writers {
+						if linDeadlocks.Load() >= 3 {
+							return
+						}
 						idx++
 						forcedWholePush(r, idx, push, src, reader, wr, false)
 						if wr != nil && (wi+len(reader))%2 == 0 {
@@ -850,16 +862,19 @@ func concurrentHistories(r *hx.Run) {
 					ws = [][]string{nil, {"pb", "A", "99"}, {"pf", "A", "98"}} // no handle of A is used after its Init
 				}
 				for wi, wr := range ws {
+					if linDeadlocks.Load() >= 3 {
+						return
+					}
 					idx++
 					forcedWholePush(r, idx, first, "ts", reader, wr, wi == 2 && reader == "rvals")
 				}
 			}
 		}
 	}
-	for i := 0; i < 12*reps; i++ {
+	for i := 0; i < 12*reps && linDeadlocks.Load() < 3; i++ {
 		bigPushPolling(r, i)
 	}
-	for i := 0; i < rounds; i++ {
+	for i := 0; i < rounds && linDeadlocks.Load() < 3; i++ {
 		_, seed := r.Rng.Fork()
 		idx++
 		linStressRound(r, seed, idx)
